@@ -58,17 +58,48 @@ Release ==
                 /\ UNCHANGED <<x, y, F, solved, branch>>
     /\ UNCHANGED pvars
 
-(* walk_descents on the passive set F2 with restricted solution xs (a function on All, zero outside F2) *)
-Walk(F2, xs) ==
-    LET inf == {i \in F2 : Neg(xs[i])}
+(***************************************************************************)
+(* Ties.  The C code decides with floating-point comparisons; where the    *)
+(* exact quantity is zero (a solution component, a trial coordinate, a     *)
+(* difference of objectives) either outcome is a behaviour of the code.    *)
+(* The operators below therefore take the decision as a parameter that     *)
+(* must lie between the strict and the non-strict reading; Solve uses the  *)
+(* exact (strict) reading, the trace specification lets TLC pick the one   *)
+(* that explains the recorded step.                                        *)
+(***************************************************************************)
+Between(S, lo, hi) == lo \subseteq S /\ S \subseteq hi
+NegSet(F2, v) == {i \in F2 : Neg(v[i])}
+NonPosSet(F2, v) == {i \in F2 : RSign(v[i]) <= 0}
+
+(* walk_descents on the passive set F2 with restricted solution xs; inf = the coordinates classified as negative.  *)
+(* The set of possible outcomes [pt, clipped, feasible].                                                           *)
+WalkOutcomes(F2, xs, inf) ==
+    LET alphaOf(i) == RDiv(x[i], RSub(x[i], xs[i]))
+        interior == {alphaOf(i) : i \in {j \in inf : xs[j] # x[j] /\ RSign(alphaOf(j)) > 0 /\ RLt(alphaOf(j), One)}}
+        RECURSIVE Desc(_)
+        Desc(S) == IF S = {} THEN <<>> ELSE LET m == CHOOSE a \in S : \A c \in S : RLe(c, a) IN <<m>> \o Desc(S \ {m})
+        alphas == <<One>> \o Desc(interior)                      \* after the reference alpha = 0
+        Raw(a) == [i \in All |-> IF i \in F2 THEN RAdd(RMul(RSub(One, a), x[i]), RMul(a, xs[i])) ELSE x[i]]
+        Pt(a) == [i \in All |-> IF i \in F2 /\ Neg(Raw(a)[i]) THEN Zero ELSE Raw(a)[i]]
+        Clips(a) == {c \in SUBSET F2 : Between(c, NegSet(F2, Raw(a)), NonPosSet(F2, Raw(a)))}
+        q0 == Q(x)
+        RECURSIVE From(_)
+        From(k) == LET pt == Pt(alphas[k])  d == RSign(RSub(Q(pt), q0))  last == k = Len(alphas)
+                       stop(f) == {[pt |-> pt, clipped |-> c, feasible |-> f] : c \in Clips(alphas[k])}
+                   IN  (IF d < 0 \/ d = 0 THEN stop(TRUE) ELSE {}) \cup             \* lower (or equal: tie) objective: accepted as a descent
+                       (IF d >= 0 /\ last THEN stop(FALSE) ELSE {}) \cup           \* the last length is taken regardless
+                       (IF d >= 0 /\ ~last THEN From(k + 1) ELSE {})
+    IN  From(1)
+(* the exact reading: strict comparisons everywhere *)
+WalkStrict(F2, xs) ==
+    LET inf == NegSet(F2, xs)
         alphaOf(i) == RDiv(x[i], RSub(x[i], xs[i]))
         interior == {alphaOf(i) : i \in {j \in inf : RSign(alphaOf(j)) > 0 /\ RLt(alphaOf(j), One)}}
         RECURSIVE Desc(_)
         Desc(S) == IF S = {} THEN <<>> ELSE LET m == CHOOSE a \in S : \A c \in S : RLe(c, a) IN <<m>> \o Desc(S \ {m})
-        alphas == <<One>> \o Desc(interior)                      \* after the reference alpha = 0
+        alphas == <<One>> \o Desc(interior)
         Trial(a) == LET raw == [i \in All |-> IF i \in F2 THEN RAdd(RMul(RSub(One, a), x[i]), RMul(a, xs[i])) ELSE x[i]]
-                    IN  [pt |-> [i \in All |-> IF i \in F2 /\ Neg(raw[i]) THEN Zero ELSE raw[i]],
-                         clipped |-> {i \in F2 : Neg(raw[i])}]
+                    IN  [pt |-> [i \in All |-> IF i \in F2 /\ Neg(raw[i]) THEN Zero ELSE raw[i]], clipped |-> NegSet(F2, raw)]
         q0 == Q(x)
         RECURSIVE Pick(_)
         Pick(k) == LET t == Trial(alphas[k]) IN
@@ -77,23 +108,35 @@ Walk(F2, xs) ==
                    ELSE Pick(k + 1)
     IN  Pick(1)
 
-Solve ==
+SolveWith(inf, w) ==
     /\ pc = "solve"
     /\ LET F2 == (F \ H1) \cup H2
            sol == IF F2 = {} THEN [i \in All |-> Zero] ELSE SolveOn(A, b, n, F2)
-           inf == {i \in F2 : Neg(sol[i])}
            atBoundary == {i \in inf : x[i] = Zero}
-       IN  /\ F' = F2 /\ H2' = {}
+       IN  /\ Between(inf, NegSet(F2, sol), NonPosSet(F2, sol))
+           /\ F' = F2 /\ H2' = {}
            /\ IF inf = {}
               THEN /\ x' = sol /\ H1' = {} /\ solved' = TRUE /\ pc' = "update" /\ branch' = "accept"
               ELSE IF inf = atBoundary
               THEN /\ x' = [i \in All |-> IF i \in inf THEN Zero ELSE x[i]] /\ H1' = inf /\ solved' = FALSE /\ pc' = "solve"
                    /\ branch' = "boundary"
-              ELSE LET w == Walk(F2, sol) IN
+              ELSE /\ w \in WalkOutcomes(F2, sol, inf)
                    /\ x' = w.pt /\ H1' = w.clipped /\ solved' = FALSE
                    /\ pc' = IF w.feasible THEN "update" ELSE "solve"
                    /\ branch' = IF w.feasible THEN "walk" ELSE "walk-last"
     /\ UNCHANGED <<y, iter>> /\ UNCHANGED pvars
+
+Solve ==
+    LET F2 == (F \ H1) \cup H2
+        sol == IF F2 = {} THEN [i \in All |-> Zero] ELSE SolveOn(A, b, n, F2)
+    IN  SolveWith(NegSet(F2, sol), WalkStrict(F2, sol))
+(* sanity of the two formulations: the strict outcome is one of the outcomes with ties *)
+StrictIsAnOutcome ==
+    pc = "solve" =>
+        LET F2 == (F \ H1) \cup H2
+            sol == IF F2 = {} THEN [i \in All |-> Zero] ELSE SolveOn(A, b, n, F2)
+            inf == NegSet(F2, sol)
+        IN  (inf # {} /\ inf # {i \in inf : x[i] = Zero}) => WalkStrict(F2, sol) \in WalkOutcomes(F2, sol, inf)
 
 Update ==
     /\ pc = "update"
